@@ -11,3 +11,5 @@ open PgmVerif
 #print axioms PgmVerif.shaped_marg
 #print axioms PgmVerif.C15_step_cpds
 #print axioms PgmVerif.C15_cpd_bookkeeping
+#print axioms PgmVerif.C15_remove_forgets
+#print axioms PgmVerif.C15_do_parentless
